@@ -59,3 +59,8 @@ CORPUS += [
     M("n-encode-keyword-only", L, "    def encode(cls, device_id: int, command: bytes) -> bytes:", "    def encode(cls, command: bytes, *, device_id: int) -> bytes:", "S",
       also=[(L, "        packet = _Packet.encode(self._device_id, data)", "        packet = _Packet.encode(data, device_id=self._device_id)")]),
 ]
+# round 8: the id is the constructor's (C02.f); the V2 receive path frames by the length field (C02.g)
+CORPUS += [
+    M("device-id-masked-in-init", L, "        self._device_id = device_id\n", "        self._device_id = device_id & 0xFFFFFFFFFFFF\n"),
+    M("v2-size-clamped", L, "                total_size = max(int.from_bytes(buf[4:6], \"little\"), 56)", "                total_size = min(max(int.from_bytes(buf[4:6], \"little\"), 56), 311)"),
+]
